@@ -447,8 +447,8 @@ func (s *Slicer) memory(addr ssa.Value, depth int) {
 	for a, calls := range ix.argUsers {
 		if a == addr || containsAddr(a, addr) || containsAddr(addr, a) || pathAlias(a, addr) {
 			for _, c := range calls {
-				if _, isSlice := a.Type().Underlying().(*types.Slice); isSlice && !s.readsIntoSlice(c) {
-					continue // a slice argument is only written by read-into functions
+				if _, isSlice := a.Type().Underlying().(*types.Slice); isSlice && (!s.readsIntoSlice(c) || !writtenPosition(c, a)) {
+					continue // a slice argument is only written by read-into functions, in their destination position
 				}
 				s.objectCall(c, a, depth)
 			}
@@ -612,6 +612,9 @@ func (s *Slicer) paramWrites(callee *ssa.Function, p *ssa.Parameter, depth int) 
 	for a, calls := range ix.argUsers {
 		if rootOf(a) == ssa.Value(p) {
 			for _, c := range calls {
+				if _, isSlice := a.Type().Underlying().(*types.Slice); isSlice && (!s.readsIntoSlice(c) || !writtenPosition(c, a)) {
+					continue // only read-into functions write a slice argument, in their destination position
+				}
 				s.objectCall(c, a, depth)
 			}
 		}
@@ -849,4 +852,25 @@ func (s *Slicer) readsIntoSlice(c ssa.CallInstruction) bool {
 		return true // analysed by descent
 	}
 	return false
+}
+
+// writtenPosition: for the library functions that fill a byte slice, a is the
+// argument they write (copy(dst, src) writes dst only, io.ReadFull(r, buf) buf
+// only, ...). Other callees are analysed by descent.
+func writtenPosition(c ssa.CallInstruction, a ssa.Value) bool {
+	args := c.Common().Args
+	pos := -1
+	switch id := CallID(c); {
+	case id == "builtin.copy" || id == "crypto/rand.Read" || id == "encoding/hex.Decode":
+		pos = 0
+	case id == "io.ReadFull" || id == "io.ReadAtLeast":
+		pos = 1
+	case id == "encoding/binary.Read":
+		pos = 2
+	case strings.HasPrefix(id, "encoding/binary.") && strings.Contains(id[strings.LastIndex(id, ".")+1:], "PutUint"):
+		pos = len(args) - 2
+	default:
+		return true
+	}
+	return pos >= 0 && pos < len(args) && args[pos] == a
 }
